@@ -46,7 +46,7 @@ def mandatory_bins(tier):
     b = ["len_mod16_%d" % i for i in range(16)] + ["trailing_zeros_%d" % z for z in range(18)]
     b += ["all_zero_content", "via_set_config", "via_direct_construction", "framing_bf3", "framing_bec2", "needle_scan", "needle_session_key", "needle_security_code",
           "needle_customer_key", "needle_plaintext_block", "key_ends_00", "default_key", "cipher_unregistered", "cipher_fails_at_call", "cipher_fails_at_first_call",
-          "cipher_fails_at_last_call", "fault_stream", "fault_path", "read_back_with_key"]
+          "cipher_fails_at_last_call", "fault_stream", "fault_path", "read_back_with_key", "long_content", "content_longer_than_1024", "rewrite_after_content_change"]
     return b
 
 
@@ -184,6 +184,33 @@ def check_case(ns, ctx, content, declared, key, framing, via, specs, conf, rp):
     d = G.diff_file(back, mcase)
     if d:
         ctx.violation("read_back_differs:" + d[0].split("[")[0], {"diff": d, "got_blob": bytes(back.components[-1].blob)[:48] if back.components else None}, rp)
+        return
+    # ---- history: the SAME object is changed and written again under the same key ---------------------
+    if len(content) <= 200:
+        ctx.bin("rewrite_after_content_change")
+        new_content = bytes((b ^ 0x5A) for b in content[::-1]) + b"\x01"
+        if via == "set_config":
+            conf2 = dict(conf)
+            conf2[(0x4001, 2)] = new_content[:100]
+            f.set_config(conf2)
+            new_content = bytes(f.components[-1].blob)
+        else:
+            f.components[-1] = BF.Bf3Component(dict(desc), new_content, len(new_content), encrypt_by_session_key=True)
+        buf2 = io.StringIO()
+        try:
+            if framing == "bf3":
+                f.write_file(buf2, key)
+            else:
+                bf.write_file(buf2, GB.write_encryptors(ns, specs))
+            _, binary2 = L.parse_text(buf2.getvalue())
+            ents2 = L.parse_bf3(binary2, key) if framing == "bf3" else L.parse_body(binary2, L.parse_bec2_header(binary2)[1], key)
+        except Exception as e:
+            ctx.violation("second_write_of_changed_object_fails", {"exc": fmt_exc(e)}, rp)
+            return
+        ctx.mon("stored_payload_vs_openssl")
+        if ents2[-1].payload != ossl.aes_cbc(key, ossl.ZERO_IV, ossl.pad0(new_content), True) or ents2[-1].declared != len(new_content):
+            stale = ents2[-1].payload == exp
+            ctx.violation("second_write_of_changed_object_stores_" + ("the_previous_ciphertext" if stale else "wrong_ciphertext"), {"len_old": len(content), "len_new": len(new_content)}, rp)
 
 
 class Fault(Exception):
@@ -320,9 +347,15 @@ def run_shard(spec, ctx):
             ns.crypto.register_AES128(ns.plugin.AES128Proxy)
         ctx.sample({"kind": "fault", "note": "cipher failure injected at every crypto call index of one write"})
         return
+    LONG = [1008, 1023, 1024, 1025, 1040, 2047, 2048, 2049, 4096, 4097, 5000, 8192, 16400]
     for j in range(spec["n"]):
         idx = spec["i"] + NSH * j
         ln = idx % 80 + 1
+        if idx % 23 == 5:
+            ln = LONG[(idx // 23) % len(LONG)] if ctx.tier != "quick" or (idx // 23) % len(LONG) < 9 else 1025
+            ctx.bin("long_content")
+            if ln > 1024:
+                ctx.bin("content_longer_than_1024")
         tz = (idx // 80) % 19
         if tz >= ln:
             tz = ln - 1
@@ -342,8 +375,13 @@ def run_shard(spec, ctx):
             specs = GB.gen_blocks(rng, rng.choice((("cust",), ("update",), ("cust", "update"), ("update", "cust")) if idx % 9 else (("ecc",), ("cust", "ecc"))))
             if key == bytes(16):
                 key = rng.randbytes(16)
-        via = "set_config" if idx % 2 else "direct"
-        conf = make_conf(rng, ln, tz) if via == "set_config" else None
+        via = "set_config" if idx % 2 and ln <= 100 else "direct"
+        if ln > 100 and idx % 2:
+            # large configuration: many entries -> multi-block TLV blob of several KB
+            via = "set_config"
+            conf = {(0x5000 + i, i % 200): rng.randbytes(100) for i in range(ln // 105 + 1)}
+            conf[(0x0202, 0x82)] = rng.randbytes(8)
+        conf = (conf if ln > 100 and idx % 2 else make_conf(rng, ln, tz)) if via == "set_config" else None
         rp = {"kind": "enc", "content": content.hex(), "declared": declared, "key": key.hex(), "framing": framing, "via": via, "specs": GB.spec_json(specs) if specs else None,
               "conf": [[k, v, c.hex()] for (k, v), c in conf.items()] if conf else None}
         check_case(ns, ctx, content, declared, key, framing, via, specs, conf, rp)
